@@ -202,7 +202,13 @@ func runC08() {
 	}
 	sigShapes(r, buffersOnly, nShapes)
 	runSharing(r)
-	c.Stats.Rule = "800 signature-opcode shapes with a transaction context (tested input at index 0..2, 1..4 outputs, all base hash types incl. SINGLE/NONE with and without ANYONECANPAY/FORKID) (implementation only: caller buffers, tx serialisation and the prevout record compared); provenance x transformation matrix: 17 ways of obtaining two stack items backed by the same data (DUP, 2DUP, 3DUP, OVER, 2OVER, PICK, TUCK, IFDUP, both halves of SPLIT, alt-stack round trips, pushes straight from the script bytes, ROT/SWAP/ROLL of duplicates) x 42 value-transforming opcode snippets x 14 twin values x both eras, in the locking script and in the unlocking script; random chains of 2-3 transformations; every ordered pair of the 42 snippets with the first result retained (plain, duplicated, or parked on the alt stack) while the second runs (quick: a third of the pairs per seed plus all hash x hash pairs); P2SH (saved stack shared with the redeem script); runs with a transaction context. Every snapshot of every stack item after every step is compared with the model (in which values cannot alias), the frame property is stated directly on the snapshots, and the caller-held script and transaction buffers are compared byte for byte before/after. distinct = distinct program; non-trivial = at least one step completed"
+	nReach := 240
+	if c.Thorough() {
+		nReach = 8000
+	}
+	sigReach(r, buffersOnly, nReach)
+	runEmptyViews(r)
+	c.Stats.Rule = "800 signature-opcode shapes with a transaction context (tested input at index 0..2, 1..4 outputs, all base hash types incl. SINGLE/NONE with and without ANYONECANPAY/FORKID) (implementation only: caller buffers, tx serialisation and the prevout record compared); 240 signature-opcode programs whose signatures reach the digest (real keys; valid signatures over the specified script code and well-formed ones over another digest; CHECKSIG / P2PKH / m-of-n CHECKMULTISIG and the VERIFY forms; bare, behind executed OP_CODESEPARATORs, between the keys, in a P2SH redeem script, with a signature push inside the script; all hash types with/without the FORKID bit and flag) (implementation only: the same caller-buffer predicates - the record on the checked input is the spent output's script, not the script code); zero-length VIEWS (15 ways of making an empty item that still has an address and a capacity: left half of a split at 0, right half of a split at SIZE, OP_PUSHDATA1/2/4 of length 0, their copies, of script bytes and of results) x 65 transformations (the 42 of the matrix, OP_NUM2BIN to 0/1/2/3/4/20 bytes, the view as second operand / size / position / shift count), in the locking script, made in the unlocking and transformed in the locking script, in a P2SH redeem script, plus random chains - values against the model, sharing against the heap model, caller buffers; provenance x transformation matrix: 17 ways of obtaining two stack items backed by the same data (DUP, 2DUP, 3DUP, OVER, 2OVER, PICK, TUCK, IFDUP, both halves of SPLIT, alt-stack round trips, pushes straight from the script bytes, ROT/SWAP/ROLL of duplicates) x 42 value-transforming opcode snippets x 14 twin values x both eras, in the locking script and in the unlocking script; random chains of 2-3 transformations; every ordered pair of the 42 snippets with the first result retained (plain, duplicated, or parked on the alt stack) while the second runs (quick: a third of the pairs per seed plus all hash x hash pairs); P2SH (saved stack shared with the redeem script); runs with a transaction context. Every snapshot of every stack item after every step is compared with the model (in which values cannot alias), the frame property is stated directly on the snapshots, and the caller-held script and transaction buffers are compared byte for byte before/after. distinct = distinct program; non-trivial = at least one step completed"
 }
 
 // emitLive: the sharing structure of the interpreter's own stacks after every step (which items lie in which
